@@ -34,6 +34,7 @@ class World:
         self.LO = np.array([b[0] for b in self.boxes], np.int64)
         self.HI = np.array([b[1] for b in self.boxes], np.int64)
         self.planner = RRTStar(tm())
+        self._mk = lambda: RRTStar(tm())
         s, off = affine if affine else (1.0, (0.0, 0.0, 0.0))
         self.nodes = [PathNode(tm([p[0] * s + off[0], p[1] * s + off[1], p[2] * s + off[2], 0, 0, 0])) for p in self.pts]
         self.obst = []
@@ -41,6 +42,10 @@ class World:
             self.planner.obstructions = []
             self.planner.addObstruction([lo[i] * s + off[i] for i in range(3)], [hi[i] * s + off[i] for i in range(3)])
             self.obst.append(self.planner.obstructions[0])
+
+
+    def fresh_planner(self):
+        return self._mk()
 
 
 _W = {}
@@ -63,6 +68,8 @@ def work_exact(p):
     for si in range(p["lo"], p["hi"]):
         ia, ib = divmod(si, n)
         na, nb_ = w.nodes[ia], w.nodes[ib]
+        pl = w.fresh_planner()          # one planner per segment: the boxes 0..j swapped in before a call are its whole history
+        f = pl.obstruction
         closed, interior = segbox_int_vec(w.pts[ia], w.pts[ib], w.LO, w.HI)
         got = np.empty(nb, bool)
         try:
@@ -84,7 +91,8 @@ def work_exact(p):
         bad = np.nonzero(got != closed)[0]
         for j in bad[:5]:
             lo, hi = w.boxes[j]
-            acc.violation("obstruction_vs_exact", {"a": w.pts[ia], "b": w.pts[ib], "box": [lo, hi], "mode": "lattice"},
+            acc.violation("obstruction_vs_exact", {"a": w.pts[ia], "b": w.pts[ib], "box": [lo, hi], "mode": "lattice",
+                                                   "tier": p["tier"], "box_index": int(j)},
                           {"impl": bool(got[j]), "exact": bool(closed[j]),
                            "fraction_oracle": segbox_fraction(w.pts[ia], w.pts[ib], lo, hi)})
         acc.nviol += max(0, len(bad) - 5)
@@ -159,6 +167,67 @@ def work_sets(p):
     return acc.result()
 
 
+REUSE_MODES = ("assign_new_list", "clear_then_add", "replace_in_place", "append_second_then_drop_first")
+
+
+def work_reuse(p):
+    """Histories on ONE planner object: register box X, query, change the registered set to box Y by one of four public
+    ways, query again.  The second answer must be the exact answer for Y (a test that caches per-box data keyed on
+    something that does not change - e.g. the number of boxes - fails here and nowhere else)."""
+    from basic_robotics.general import tm
+    from basic_robotics.path_planning.pathplanner import RRTStar
+    w = world("quick")
+    acc = lattice.Acc()
+    n = len(w.pts)
+    sub = list(range(0, len(w.boxes), max(1, len(w.boxes) // 12)))[:12]
+    segs = p["segs"]
+    for si in segs[p["lo"]:p["hi"]]:
+        ia, ib = divmod(si, n)
+        closed, _ = segbox_int_vec(w.pts[ia], w.pts[ib], w.LO, w.HI)
+        for x in sub:
+            for y in sub:
+                for mode in REUSE_MODES:
+                    case = {"a": w.pts[ia], "b": w.pts[ib], "first_box": list(w.boxes[x]), "box": list(w.boxes[y]), "mode": "reuse", "how": mode}
+                    try:
+                        g1, g2 = reuse_history(w.pts[ia], w.pts[ib], w.boxes[x], w.boxes[y], mode)
+                    except Exception as e:
+                        acc.violation("raised", case, repr(e))
+                        continue
+                    acc.evals += 1
+                    if ia != ib and x != y:
+                        acc.nontrivial_count += 1
+                    if bool(g1) != bool(closed[x]):
+                        acc.violation("obstruction_vs_exact", dict(case, which="first"), {"impl": bool(g1), "exact": bool(closed[x])})
+                    if bool(g2) != bool(closed[y]):
+                        acc.violation("obstruction_after_set_change", case, {"impl": bool(g2), "exact": bool(closed[y])})
+    return acc.result()
+
+
+def reuse_history(a, b, X, Y, mode):
+    from basic_robotics.general import tm
+    from basic_robotics.path_planning.pathplanner import RRTStar, PathNode
+    pl = RRTStar(tm())
+    na = PathNode(tm([a[0], a[1], a[2], 0, 0, 0]))
+    nb = PathNode(tm([b[0], b[1], b[2], 0, 0, 0]))
+    pl.addObstruction(list(X[0]), list(X[1]))
+    g1 = pl.obstruction(na, nb)
+    if mode == "assign_new_list":
+        pl.obstructions = []
+        pl.addObstruction(list(Y[0]), list(Y[1]))
+    elif mode == "clear_then_add":
+        del pl.obstructions[:]
+        pl.addObstruction(list(Y[0]), list(Y[1]))
+    elif mode == "replace_in_place":
+        keep = pl.obstructions
+        pl.addObstruction(list(Y[0]), list(Y[1]))
+        keep[0] = keep.pop()
+    else:
+        pl.addObstruction(list(Y[0]), list(Y[1]))
+        del pl.obstructions[0]
+    g2 = pl.obstruction(na, nb)
+    return g1, g2
+
+
 def run(ctx):
     pts, boxes = lattices(ctx.tier)
     nseg = len(pts) ** 2
@@ -168,16 +237,53 @@ def run(ctx):
         m2 = lattice.run(ctx, pool, MOD, "work_affine", len(qp) ** 2, part="affine")
         segs = list(range(0, len(qp) ** 2, 7))
         m3 = lattice.run(ctx, pool, MOD, "work_sets", len(segs), extra={"segs": segs}, part="sets")
-    lattice.fill(ctx, [("lattice", m1), ("affine", m2), ("sets", m3)],
+        segs2 = list(range(3, len(qp) ** 2, 97 if ctx.tier == "quick" else 23))
+        m4 = lattice.run(ctx, pool, MOD, "work_reuse", len(segs2), extra={"segs": segs2}, part="reuse")
+    lattice.fill(ctx, [("lattice", m1), ("affine", m2), ("sets", m3), ("reuse", m4)],
                  "all ordered pairs of integer lattice points x all integer boxes lo<=hi (every pair distinct by construction; "
                  "non-trivial = segment of non-zero length); affine image compared where the exact answer has no boundary contact; "
-                 "two-box sets over a 24-box sub-palette on every 7th segment",
+                 "two-box sets over a 24-box sub-palette on every 7th segment; planner-reuse histories (register X, query, change the set to Y "
+                 "in 4 public ways, query) over all ordered pairs of a 12-box sub-palette on every 97th (quick) / 23rd (thorough) segment",
                  {"endpoints": len(pts), "boxes": len(boxes), "segments": nseg})
     ctx.assumptions += ["on the integer lattice every intermediate of the implementation is a dyadic rational exactly representable in float64",
                         "boundary contact counts as intersection (closed box, closed segment)"]
 
 
 def replay(rec):
+    from basic_robotics.general import tm
+    from basic_robotics.path_planning.pathplanner import RRTStar, PathNode
+    c = rec["case"]
+    if c.get("mode") == "reuse":
+        try:
+            g1, g2 = reuse_history(c["a"], c["b"], c["first_box"], c["box"], c["how"])
+        except Exception as e:
+            return [{"clause": "raised", "observed": repr(e)}] if rec["clause"] == "raised" else []
+        w1 = segbox_fraction(c["a"], c["b"], c["first_box"][0], c["first_box"][1])
+        w2 = segbox_fraction(c["a"], c["b"], c["box"][0], c["box"][1])
+        if rec["clause"] == "obstruction_after_set_change":
+            return [{"clause": rec["clause"], "observed": {"impl": bool(g2), "exact": w2}}] if bool(g2) != w2 else []
+        return [{"clause": rec["clause"], "observed": {"impl": bool(g1), "exact": w1}}] if bool(g1) != w1 else []
+    if c.get("mode") == "lattice" and c.get("box_index") is not None:
+        # the enumeration uses one planner per segment and swaps its single registered box between calls; if the
+        # fresh-planner replay does not reproduce, replay that whole history (boxes 0..j in enumeration order)
+        fresh = _replay_fresh(rec)
+        if fresh:
+            return fresh
+        _, boxes = lattices(c.get("tier", "quick"))
+        pl = RRTStar(tm())
+        na = PathNode(tm(list(c["a"]) + [0, 0, 0]))
+        nb = PathNode(tm(list(c["b"]) + [0, 0, 0]))
+        g = None
+        for k in range(c["box_index"] + 1):
+            pl.obstructions = []
+            pl.addObstruction(list(boxes[k][0]), list(boxes[k][1]))
+            g = bool(pl.obstruction(na, nb))
+        w2 = segbox_fraction(c["a"], c["b"], c["box"][0], c["box"][1])
+        return [{"clause": rec["clause"], "observed": {"impl": g, "exact": w2, "needs_history": True}}] if g != w2 else []
+    return _replay_fresh(rec)
+
+
+def _replay_fresh(rec):
     from basic_robotics.general import tm
     from basic_robotics.path_planning.pathplanner import RRTStar, PathNode
     c = rec["case"]
